@@ -93,9 +93,12 @@ pub(crate) fn is_sy_metadata(relative_path: &Path) -> bool {
 /// compares them) is moved onto that name's inode: linked under the working name, then renamed
 /// into place. Destinations that are not local have no entry here: nothing happens.
 #[cfg(unix)]
-fn relink_hard_link_groups(groups: &std::collections::HashMap<u64, Vec<PathBuf>>) {
+fn relink_hard_link_groups(
+    groups: &std::collections::HashMap<u64, Vec<PathBuf>>,
+) -> Vec<(PathBuf, std::io::Error)> {
     use std::os::unix::fs::MetadataExt;
 
+    let mut failed = Vec::new();
     for names in groups.values() {
         // one name per distinct (size, time stamp) found so far; normally there is exactly one
         let mut kept: Vec<(&PathBuf, std::fs::Metadata)> = Vec::new();
@@ -129,14 +132,20 @@ fn relink_hard_link_groups(groups: &std::collections::HashMap<u64, Vec<PathBuf>>
                 Err(e) => {
                     let _ = std::fs::remove_file(&working);
                     tracing::warn!("Could not restore hard link {}: {}", name.display(), e);
+                    failed.push((name.clone(), e));
                 }
             }
         }
     }
+    failed
 }
 
 #[cfg(not(unix))]
-fn relink_hard_link_groups(_groups: &std::collections::HashMap<u64, Vec<PathBuf>>) {}
+fn relink_hard_link_groups(
+    _groups: &std::collections::HashMap<u64, Vec<PathBuf>>,
+) -> Vec<(PathBuf, std::io::Error)> {
+    Vec::new()
+}
 
 pub struct SyncEngine<T: Transport> {
     transport: Arc<T>,
@@ -1402,7 +1411,22 @@ impl<T: Transport + 'static> SyncEngine<T> {
                 names.retain(|name| !stats.errors.iter().any(|e| &e.path == name));
             }
         }
-        relink_hard_link_groups(&link_groups);
+        // A hard link that could not be restored is a failure of the run like any other (it used to be
+        // a warning: exit status 0 with the names on separate inodes)
+        for (path, e) in relink_hard_link_groups(&link_groups) {
+            if self.json {
+                SyncEvent::Error {
+                    path: path.clone(),
+                    error: e.to_string(),
+                }
+                .emit();
+            }
+            stats.lock().unwrap().errors.push(SyncError {
+                path,
+                error: e.to_string(),
+                action: "link".to_string(),
+            });
+        }
 
         // End transfer timing
         if let Some(ref monitor) = self.perf_monitor {
